@@ -203,6 +203,10 @@ def validate(ctx, groups):
             meta = items[tid][1]
             ctx.violation(dict(kind="newton", clause=" ".join(clause.split(" ")[:4]), objective=meta["objective"], variant=meta["variant"]),
                           "%s Newton-CG on %s from %s %s: %s (status=%s nit=%s)" % (meta["variant"], meta["objective"], meta["x0"], meta["kw"], clause, meta["status"], meta["nit"]), replay=meta)
+        for tid, name in tracemod.masked_truth(tv, traces, lambda t: t["truth"]):
+            meta = items[tid][1]
+            ctx.violation(dict(kind="newton", clause=name, objective=meta["objective"], variant=meta["variant"]), "%s Newton-CG on %s from %s %s: ground truth '%s' is false (and the run is not a behaviour of the bookkeeping)" % (
+                meta["variant"], meta["objective"], meta["x0"], meta["kw"], name), replay=meta)
         for tid in tv.rejected:
             if not any(t == tid for t, _, _ in tv.propfail):
                 meta = items[tid][1]
